@@ -227,6 +227,12 @@ def run_case(ctx, i, rng):
         ctx.count("class:shared_pose_storage")
     if nofix:
         ctx.count("class:no_fixed_vertex_prior_anchored")
+    if rng.random() < 0.3:
+        # landmark edges built in code without an offset id (the constructor's default): whatever an export does about that, it is not the edges' business
+        for e in spec["edges"]:
+            if e.get("type") == "lm" and e.get("off_kind") == "se3":
+                e["off_id"] = None
+                ctx.count("class:se3_landmark_edges_without_offset_id")
     g = M.build(spec)
     g_other = M.build(spec)
     if i % 4 == 1:
